@@ -133,7 +133,9 @@ def tensordot(lhs, rhs, axes=2):
         return intermediate
     else:
         left_axes = [ax if ax >= 0 else lhs.ndim + ax for ax in left_axes]
-        return intermediate.sum(axis=left_axes)
+        # dtype=dt: np.sum would promote small integers to the platform int,
+        # NumPy's tensordot keeps the promoted operand dtype
+        return intermediate.sum(axis=left_axes, dtype=dt)
 
 
 @derived_from(np, ua_args=["out"])
@@ -319,7 +321,7 @@ def matmul(a, b):
     # this issue: https://github.com/dask/dask/issues/6874
 
     # We will also perform the reduction without concatenation
-    out = _sum_wo_cat(out, axis=-2)
+    out = _sum_wo_cat(out, axis=-2, dtype=out.dtype)
 
     if a_is_1d or b_is_1d:
         from dask_array._collection import squeeze
